@@ -58,16 +58,18 @@ const (
 	opChunkDelete
 	opChunkDup
 	opKeywordInsert
+	opContinuation
+	opELFSection
 	nOps
 )
 
 var opNames = [nOps]string{"bitflip", "byteset", "trunc-random", "trunc-token", "line-delete", "line-dup", "line-swap",
 	"token-delete", "token-dup", "token-swap", "lenfield", "token-repeat", "deep-nest", "long-line", "splice", "number-edit",
-	"invalid-utf8", "chunk-delete", "chunk-dup", "keyword-insert"}
+	"invalid-utf8", "chunk-delete", "chunk-dup", "keyword-insert", "continuation", "elf-section"}
 
 // weights for text and for binary seeds
-var textWeights = [nOps]int{4, 6, 5, 6, 6, 5, 4, 7, 5, 4, 1, 5, 5, 2, 4, 7, 4, 3, 2, 4}
-var binWeights = [nOps]int{10, 9, 6, 2, 1, 1, 1, 2, 2, 2, 14, 2, 2, 1, 4, 2, 2, 5, 3, 1}
+var textWeights = [nOps]int{4, 6, 5, 6, 6, 5, 4, 7, 5, 4, 1, 5, 5, 2, 4, 7, 4, 3, 2, 4, 6, 0}
+var binWeights = [nOps]int{10, 9, 6, 2, 1, 1, 1, 2, 2, 2, 14, 2, 2, 1, 4, 2, 2, 5, 3, 1, 1, 12}
 
 const delims = "\n \t,:=\"'{}[]<>();/|@#&"
 
@@ -203,6 +205,46 @@ func mutateOnce(r *rand.Rand, b []byte, isBinary bool, other func() []byte) ([]b
 	out := append([]byte(nil), b...)
 	n := len(out)
 	switch op {
+	case opELFSection:
+		// structure-aware length-field edit: the size / offset of one ELF section header (falls back to a generic
+		// length-field edit when the input is not an ELF file)
+		if m, label, ok := elfSectionEdit(r, out); ok {
+			return m, op, label
+		}
+		return mutateLenFieldFallback(r, out), op, "elf-section(not-elf:lenfield)"
+	case opContinuation:
+		// line-continuation / escape character at the end of the input or of a line: readers that join continued
+		// lines must terminate when the continuation is the last thing in the file, or is followed by an oversized line
+		esc := []byte{'\\', '\\', '\\', '^', '`', '&'}[r.Intn(6)]
+		switch r.Intn(6) {
+		case 0: // cut right after an existing escape character
+			if i := bytes.LastIndexByte(out, esc); i >= 0 {
+				return out[:i+1], op, fmt.Sprintf("cont-trunc-after-%q@%d", esc, i)
+			}
+			fallthrough
+		case 1: // escape character as the very last byte (no final newline)
+			out = bytes.TrimRight(out, "\r\n")
+			return append(out, esc), op, fmt.Sprintf("cont-%q-at-eof", esc)
+		case 2: // text, then the escape character and a final newline
+			out = bytes.TrimRight(out, "\r\n")
+			return append(out, ' ', esc, '\n'), op, fmt.Sprintf("cont-%q-newline-at-eof", esc)
+		case 3: // a line that is only the escape character, at the end
+			if n > 0 && out[n-1] != '\n' {
+				out = append(out, '\n')
+			}
+			return append(out, esc), op, fmt.Sprintf("cont-%q-alone-last-line", esc)
+		case 4: // escape at the end of a random line (joins it with the next one)
+			ls := splitLines(out)
+			i := r.Intn(len(ls))
+			l := bytes.TrimRight(ls[i], "\r\n")
+			ls[i] = append(append(append([]byte(nil), l...), esc), ls[i][len(l):]...)
+			return bytes.Join(ls, nil), op, fmt.Sprintf("cont-%q-line%d", esc, i)
+		default: // continuation followed by a line longer than the 64 KiB scanner buffer
+			out = bytes.TrimRight(out, "\r\n")
+			out = append(out, ' ', esc, '\n')
+			out = append(out, bytes.Repeat([]byte("x"), 70000)...)
+			return append(out, '\n'), op, fmt.Sprintf("cont-%q-then-70000", esc)
+		}
 	case opBitflip:
 		k := 1 + r.Intn(4)
 		for i := 0; i < k && n > 0; i++ {
@@ -455,4 +497,59 @@ func osRelease(r *rand.Rand) (data []byte, present bool, label string) {
 		i := r.Intn(len(garbageOSReleases))
 		return []byte(garbageOSReleases[i]), true, fmt.Sprintf("garbage#%d", i)
 	}
+}
+
+// elfSectionEdit overwrites sh_size or sh_offset of a random section header with a boundary value.
+func elfSectionEdit(r *rand.Rand, b []byte) ([]byte, string, bool) {
+	if len(b) < 0x40 || string(b[:4]) != "\x7fELF" {
+		return nil, "", false
+	}
+	is64 := b[4] == 2
+	var bo binary.ByteOrder = binary.LittleEndian
+	if b[5] == 2 {
+		bo = binary.BigEndian
+	}
+	var shoff uint64
+	var entsz, num int
+	if is64 {
+		shoff = bo.Uint64(b[0x28:])
+		entsz, num = int(bo.Uint16(b[0x3A:])), int(bo.Uint16(b[0x3C:]))
+	} else {
+		shoff = uint64(bo.Uint32(b[0x20:]))
+		entsz, num = int(bo.Uint16(b[0x2E:])), int(bo.Uint16(b[0x30:]))
+	}
+	if num == 0 || entsz < 0x28 || shoff >= uint64(len(b)) {
+		return nil, "", false
+	}
+	i := r.Intn(num)
+	base := int(shoff) + i*entsz
+	if base+entsz > len(b) {
+		return nil, "", false
+	}
+	vals := []uint64{0, 1, uint64(len(b)), uint64(len(b)) + 1, 1 << 28, 1 << 31, 1 << 32, 1 << 40, 1 << 62, 1<<63 - 1, ^uint64(0), ^uint64(0) - 7}
+	v := vals[r.Intn(len(vals))]
+	field := []string{"sh_size", "sh_offset"}[r.Intn(2)]
+	if is64 {
+		off := base + 0x20
+		if field == "sh_offset" {
+			off = base + 0x18
+		}
+		bo.PutUint64(b[off:], v)
+	} else {
+		off := base + 0x14
+		if field == "sh_offset" {
+			off = base + 0x10
+		}
+		bo.PutUint32(b[off:], uint32(v))
+	}
+	return b, fmt.Sprintf("elf-section[%d].%s=%#x", i, field, v), true
+}
+
+func mutateLenFieldFallback(r *rand.Rand, b []byte) []byte {
+	if len(b) < 8 {
+		return b
+	}
+	p := r.Intn(len(b) - 7)
+	binary.LittleEndian.PutUint32(b[p:], []uint32{0, 1, 0x7fffffff, 0xffffffff, uint32(len(b)) + 1}[r.Intn(5)])
+	return b
 }
